@@ -3,7 +3,7 @@ use super::epc::*;
 use crate::conn::RoleK;
 use crate::ep::*;
 use crate::explore::Limits;
-use crate::refcodec::{AckKind, Ver};
+use crate::refcodec::{self as rc, AckKind, Ver, AP};
 use crate::report::Report;
 
 const ROLES: [RoleK; 3] = [RoleK::Client, RoleK::Server, RoleK::Any];
@@ -624,6 +624,33 @@ pub fn c19_configs(thorough: bool) -> Vec<EpCfg> {
                 };
                 c.connects = vec![ConnProf { ka: 1, ..ConnProf::basic(true) }, ConnProf { ka: 1, rm: Some(1), ..ConnProf::basic(false) }, ConnProf { mps: Some(8), ..ConnProf::basic(true) }];
                 c.connacks = vec![AckProf::basic(false), AckProf { rm: Some(1), ..AckProf::basic(true) }, AckProf { ok: false, ..AckProf::basic(false) }, AckProf { mps: Some(2), ..AckProf::basic(false) }, AckProf { mps: Some(8), ..AckProf::basic(false) }];
+                // several frames in one read buffer: a frame that makes the connection request the close,
+                // followed by frames that would make it transmit (the close-order rule is per returned list)
+                {
+                    let w = 2usize;
+                    let bad: Vec<(&str, Vec<u8>)> = vec![
+                        ("unexpected PUBACK", rc::encode(&AP::Ack { ver, kind: AckKind::Puback, pid: 9, code: None, props: None }, w)),
+                        ("unexpected PUBCOMP", rc::encode(&AP::Ack { ver, kind: AckKind::Pubcomp, pid: 9, code: None, props: None }, w)),
+                        ("second CONNECT/CONNACK", if role == RoleK::Server { rc::encode(&ConnProf::basic(true).ap(ver), w) } else { rc::encode(&AckProf::basic(false).ap(ver), w) }),
+                        ("malformed PUBLISH", vec![0x32, 0x02, 0x00, 0x05]),
+                    ];
+                    let next: Vec<(&str, Vec<u8>)> = vec![
+                        ("PINGREQ", rc::encode(&AP::Pingreq { ver }, w)),
+                        ("PUBLISH q1", rc::encode(&AP::Publish { ver, dup: false, qos: 1, retain: false, topic: b"a".to_vec(), pid: Some(1), props: vec![], payload: b"p".to_vec() }, w)),
+                        ("PUBLISH q2", rc::encode(&AP::Publish { ver, dup: false, qos: 2, retain: false, topic: b"a".to_vec(), pid: Some(1), props: vec![], payload: b"p".to_vec() }, w)),
+                        ("PUBREL", rc::encode(&AP::Ack { ver, kind: AckKind::Pubrel, pid: 1, code: None, props: None }, w)),
+                        ("PUBREC", rc::encode(&AP::Ack { ver, kind: AckKind::Pubrec, pid: 1, code: None, props: None }, w)),
+                    ];
+                    let mut st = vec![];
+                    for (bn, b) in &bad {
+                        for (nn, n) in &next {
+                            let mut f = b.clone();
+                            f.extend_from_slice(n);
+                            st.push((format!("{bn} + {nn} in one buffer"), f));
+                        }
+                    }
+                    c.stimuli = std::sync::Arc::new(st);
+                }
                 c.groups = vec!["c19"];
                 v.push(c);
             }
